@@ -57,6 +57,7 @@ let tok_of_out (o : mout out) : string =
   | OCore (_, Refused (c, sr)) -> Printf.sprintf "limit:%d:%d" (int_of_n c) (int_of_n sr)
   | OCore (_, ActFail (c, sr)) -> Printf.sprintf "actfail:%d:%d" (int_of_n c) (int_of_n sr)
   | OCore (_, ActOk (c, sr)) -> Printf.sprintf "actok:%d:%d" (int_of_n c) (int_of_n sr)
+  | OCore (_, Self (c, sr)) -> Printf.sprintf "self:%d:%d" (int_of_n c) (int_of_n sr)
   | OGone c -> Printf.sprintf "gone:%d" (int_of_n c)
   | ORefused c -> Printf.sprintf "refused:%d" (int_of_n c)
 
